@@ -85,8 +85,19 @@ impl Wake for Notify {
     }
 
     fn wake_by_ref(self: &Arc<Self>) {
+        #[cfg(compio_verif)]
+        let verif_addr = Arc::as_ptr(self) as usize as u64;
         if !self.awake.wake() {
+            #[cfg(compio_verif)]
+            {
+                crate::verif::emit(crate::verif::Kind::Wake, verif_addr, 0, 0);
+                crate::verif::pause(crate::verif::Point::WakeBeforeSyscall);
+            }
             rustix::io::write(&self.fd, &u64::to_be_bytes(1)).ok();
+            #[cfg(compio_verif)]
+            return;
         }
+        #[cfg(compio_verif)]
+        crate::verif::emit(crate::verif::Kind::Wake, verif_addr, 1, 0);
     }
 }
